@@ -567,7 +567,7 @@ func c20Wire(run *evid.Run, cfg Cfg) {
 		Peers:       map[uint64]string{1: fmt.Sprintf("127.0.0.1:%d", port)},
 		Permissions: map[string]map[string][]string{"client1": {".*": {"All"}}},
 		NDWallets:   c20Wallets, DistWallets: []string{"D"},
-		Wrapper:     []string{"prlimit", "--as=8589934592"}, LogLevel: "trace"})
+		Wrapper: []string{"prlimit", "--as=8589934592"}, LogLevel: "trace"})
 	if err != nil {
 		run.Inconclusive(err.Error())
 		return
